@@ -201,7 +201,7 @@ def run(rep, tier, seed):
     d = core.workdir("c16")
     try:
         nhdr = capture_header_fields(rep, tier, rnd, d)
-        items = make_items(rnd, 2500 if tier == "quick" else 30000, every_offset=False, checks=("read",))
+        items = make_items(rnd, 5000 if tier == "quick" else 30000, every_offset=False, checks=("read",))
         for it in items:
             it["tag"] = "random " + "/".join(k for k, _ in it["layers"])
             it["hist"] = [h for h in it["hist"] if h["op"] == "read"]
